@@ -1,3 +1,4 @@
 #!/bin/sh
-# Runs the repository's pinned suite (unit + integration tests, guard off) and prints a summary.
-cd /repo && CARGO_NET_OFFLINE=true cargo test --offline --lib --tests --no-fail-fast 2>&1 | awk '/^test result/{p+=$4; f+=$6} /FAILED|^error/{print} END {print p" passed "f" failed"; if (f>0 || p<100) exit 1}'
+# Runs the repository's pinned suite the way the baseline does (nextest: one process per
+# test, guard off) and prints a one-line summary; exit 1 unless all 100 pass.
+cd /repo && CARGO_NET_OFFLINE=true cargo nextest run --workspace --no-fail-fast --offline --test-threads 8 2>&1 | awk '/^ +(FAIL|SIGABRT|TIMEOUT)/{print} /Summary/{print; if ($0 !~ /100 passed/ || $0 ~ /failed/) bad=1; seen=1} END {if (!seen || bad) exit 1}'
